@@ -6,7 +6,7 @@ Correspondence: props/cases_c15.py runs the real code (harness/src/manual_c15.rs
 (d = 1..8, condition numbers 1..1e8, n = 0..60, malformed input stream, setter histories), and checks the implementation
 against the statement itself (Σ ln_f, chain rule, Bayes' rule, sequential = batch, moments of draws).
 """
-import os, re, subprocess, sys
+import os
 from checklib import core
 
 ID = 'C15'
@@ -31,37 +31,48 @@ def gen_ops(man):
     return []
 
 
+def _cases():
+    try:
+        from props import cases_c15
+        return cases_c15
+    except Exception:
+        import importlib.util
+        spec = importlib.util.spec_from_file_location('cases_c15', os.path.join(os.path.dirname(__file__), 'cases_c15.py'))
+        mod = importlib.util.module_from_spec(spec)
+        spec.loader.exec_module(mod)
+        return mod
+
+
 def extra_run(man, tier, seed):
-    n = 12 if tier == 'quick' else 150
-    script = os.path.join(os.path.dirname(__file__), 'cases_c15.py')
-    p = subprocess.run([sys.executable, script, core.harness_path(), core.driver_path(), str(seed + 15), str(n)],
-                       capture_output=True, text=True, timeout=3000)
-    out = p.stdout
-    m = re.search(r'cases: (\d+)', out)
-    ncases = int(m.group(1)) if m else 0
-    m = re.search(r'mismatches beyond tolerance: (\d+)', out)
-    nmis = int(m.group(1)) if m else -1
-    lines = out.split('\n')
-    mis_cases = []
-    for i, l in enumerate(lines):
-        if 'MISMATCH' in l and i + 3 < len(lines):
-            mis_cases.append({'line': lines[i + 1].strip()[:3000], 'impl': lines[i + 2].strip()[:600], 'model': lines[i + 3].strip()[:600]})
-    obligations = [{'name': 'corr:MvGaussianFamily(hand model)', 'kind': 'corr', 'ok': nmis == 0 and ncases > 0, 'site': 'MvGaussian',
-                    'detail': ('%d cases, %d mismatches' % (ncases, nmis)) + ('' if p.returncode == 0 else ' rc=%d %s' % (p.returncode, p.stderr[-300:])),
-                    'cases': mis_cases[:3]}]
+    """library call cases_c15.run(tier, seed): every correspondence mismatch is stored as a concrete (line, impl, model) case,
+    every finding outside KNOWN (failed_set_cov_mutates, failed_set_mu_mutates, forget_to_1_wrong, forget_to_0_wrong,
+    new_cholesky_cov_ne_sigma, new_cholesky_unchecked_ne_checked, params_roundtrip_ne, niw_draw_mean_scale, ln_f_stat_ne_sum,
+    chain_rule, bayes_rule, sequential_ne_batch, ln_m_empty_not_zero, draw_moments, niw_accepts_nan_k, ln_f_stat_empty_not_zero)
+    as a failure with its input"""
+    try:
+        r = _cases().run(tier, seed + 15, n=(12 if tier == 'quick' else 150), harness=core.harness_path(), driver=core.driver_path())
+        err = ''
+    except Exception as e:          # a crashed run is a failed obligation, not a silent pass
+        r = {'cases': 0, 'mismatches': [], 'findings': {}, 'samples': [], 'counts': {}}
+        err = ' run failed: %r' % (e,)
+    ncases, mism = r['cases'], r['mismatches']
+    # one stored case per distinct op first (so that several regressions at once all show up), then the rest
+    seen, first, rest = set(), [], []
+    for line, a, b in mism:
+        op = line.split()[0]
+        (rest if op in seen else first).append({'line': line[:3000], 'impl': a[:1200], 'model': b[:1200]})
+        seen.add(op)
+    obligations = [{'name': 'corr:MvGaussianFamily(hand model)', 'kind': 'corr', 'ok': (not mism) and ncases > 0 and not err,
+                    'site': 'MvGaussian',
+                    'detail': ('%d cases, %d mismatches%s' % (ncases, len(mism), err))
+                              + ''.join('\n  %s | impl %s | model %s' % (c['line'][:300], c['impl'][:160], c['model'][:160]) for c in first[:4]),
+                    'cases': (first + rest)[:6]}]
     failures = []
-    cur = None
-    for l in lines:
-        mm = re.match(r'finding (\w+) (\d+)', l)
-        if mm:
-            cur = mm.group(1)
-            continue
-        if cur and l.startswith('    ') and l.strip():
-            site, cls = KNOWN.get(cur, ('MvGaussianFamily.' + cur, cur))
-            failures.append({'site': site, 'case': l.strip()[:3000], 'impl': '', 'expected': f'no `{cur}`', 'observed': cur, 'detail': cur, 'cls': cls})
-        elif not l.startswith('    '):
-            cur = None
-    samples = [l.strip()[:200] for l in lines if l.startswith('cases:') or l.startswith('      d=')][:6]
+    for name, cs in sorted(r['findings'].items()):
+        site, cls = KNOWN.get(name, ('MvGaussianFamily.' + name, name))
+        for c in cs[:5]:
+            failures.append({'site': site, 'case': c[:3000], 'impl': '', 'expected': f'no `{name}`', 'observed': name, 'detail': name, 'cls': cls})
+    samples = list(r.get('samples', []))[:4] + ['counts: %r' % (r.get('counts'),)]
     return {'obligations': obligations, 'failures': failures, 'stats': {'evaluations': ncases, 'distinct_nontrivial': ncases}, 'samples': samples}
 
 
